@@ -239,8 +239,10 @@ fn run_redo() -> (Result<(), Error>, Option<StdinLogReader>) {
     set_defint(ENV_COLOR, auto_bool_arg(&matches, "color"));
     let mut targets = {
         let mut targets = Vec::<&RedoPath>::new();
-        for arg in matches.values_of("target").unwrap_or_default() {
-            targets.push(match RedoPath::from_str(arg) {
+        // (as given by the operating system: asked for as `str`, clap panics on a name that
+        // is not UTF-8 -- which is for RedoPath to refuse, as in the other commands)
+        for arg in matches.values_of_os("target").unwrap_or_default() {
+            targets.push(match RedoPath::from_os_str(arg) {
                 Ok(p) => p,
                 Err(e) => return (Err(e.into()), None),
             });
